@@ -399,6 +399,21 @@ func c07Block(t *rapid.T, a *asm, depth int, label string) {
 		a.lit(refvm.OpCheckPredicate)
 	case k == 13: // raw bytes
 		a.lit(rapid.SliceOfN(rapid.Byte(), 1, 6).Draw(t, label+"raw")...)
+	case k == 14: // a big item (its memory cost dwarfs the fixed cost of any instruction), kept or dropped
+		n := rapid.SampledFrom([]int{70, 76, 200, 255, 256, 600, 1500}).Draw(t, label+"bigsz")
+		big := make([]byte, n)
+		for i := range big {
+			big[i] = byte(i*7 + n)
+		}
+		a.pushBytes(big)
+		switch rapid.IntRange(0, 3).Draw(t, label+"bigthen") {
+		case 0:
+			a.lit(refvm.OpDrop)
+		case 1:
+			a.lit(refvm.OpDup, refvm.Op2Drop)
+		case 2:
+			a.lit(refvm.OpSha3, refvm.OpDrop)
+		}
 	default:
 		a.lit(0x51)
 	}
